@@ -8,6 +8,11 @@ CLAIMED = {
   note="Trusted: std::sync::Mutex excludes (a guard's view is stable while held); stub contracts of EventLog::append, the sidecar tail reader and replay_events (cache fidelity is C04/C05); Uuid freshness; rules R1,R2,R9 (format! replaced by an opaque string); stub ContinuityStore struct with the real field names. Not decided: cross-restart histories, session/task stream writers not yet under contract, byte-level interleaving inside EventLog::append.",
   technique="Verus contracts with ghost timeless facts and effect-constraint preconditions on mechanically extracted ContinuityStore writers",
   ref="§4 C01"),
+ 'C04': dict(
+  text="Partial claim: termination, index safety and exactness of the cache primitives every read path goes through, by unbounded deductive proof (Verus/Z3) on the real functions extracted from /repo on every run: scan_sidecar_backwards terminates for every file length and window (decreases pos) and returns at most max_events records; strip_line_terminator leaves exactly the longest prefix without trailing CR/LF; best_offset_for_seq returns the offset of the last index entry at or before the target (0 when none), for every monotone index; next_power_of_two_u64 is a power of two >= v and the least such (bit-vector lemma); message_index_should_grow is the 7/10 load test; msg_index_slot_offset never wraps; lookup_message_v1 keeps its probe inside the table and its offset arithmetic cannot overflow for ANY header a corrupted index file may contain. One clause is a BOUNDED stand-in (not proved): the scanner returns the newest records in reverse order, skips none, and turns a torn last record into an error, checked by running the extracted real code over all sidecars of <= 4 records x {LF, CRLF} x {terminated, unterminated, torn, blank tail} x 2 paddings (one spanning several 8 KiB scan chunks) x 4 max_events x 4 max_bytes x 2 modes. Transparency itself (fast path == truth log through the whole read capability) is not decided.",
+  note="Trusted: assumed contract of <[T]>::binary_search_by (partition semantics under a comparator that is monotone on the slice), drain_sidecar_lines through an assumed size contract (it uses Iterator::rposition, which this Verus cannot specify), File/metadata/seek/read_exact stubs with ghost position/length (files shorter than 2^63 bytes), serde_json::from_slice opaque, 64-bit usize, rules R1,R2,R4. Not decided: equality of cache-backed answers with truth-log answers for the read capabilities (two large implementations compared through the file system; a stale but well-formed sidecar cannot be excluded by a per-function contract), message_count_v1/read_message_by_ordinal_v1, compaction checkpoint index.",
+  technique="Verus contracts (decreases, bit_vector lemma, closure contract for the comparator) on mechanically extracted cache primitives; one clause by bounded native replay, labelled bounded",
+  ref="§4 C04"),
  'C08': dict(
   text="Unbounded deductive proof (Verus/Z3) of the pure compile kernels, extracted from /repo on every run: select_recent_messages and select_recent_messages_after_seq return exactly the last min(limit, n) message frames that are at or before the cut point and after the selected checkpoint, oldest first, each carrying the frame's fields unchanged (stated against a recursive spec function over the whole event sequence, with a suffix lemma), for every event sequence, cut, checkpoint seq and limit; resolve_cutpoint_from_tail returns the anchor message's seq and the frame before the next message after it (or the head). Frames after the cut provably do not influence the result (they are not eligible in the spec). Partial: equivalence of the three input read paths, checkpoint hierarchy selection and reply-text assembly are not under contract.",
   note="Trusted: assumed contracts of <[T]>::reverse and slice Iter::position, String==str equality axioms, slice length bound, vstd iterator/Vec/Option specs, Event/EventKind extracted mechanically from rip-kernel with serde attributes dropped (R1) and serde_json::Value opaque, rules R2,R4,R7 (for-with-continue to index loop). Not decided: None-case of the tail cut (anchor absent), resolve_context_compile_cutpoint_full and agreement between tail/window/full paths, compile_* assembly, races with appends.",
